@@ -425,10 +425,19 @@ func layerGoString(i interface{}, b *bytes.Buffer) {
 	}
 	switch v.Kind() {
 	case reflect.Ptr, reflect.Interface:
+		if v.IsNil() {
+			// optional parts of a layer are nil pointers
+			b.WriteString("nil")
+			return
+		}
 		if v.Kind() == reflect.Ptr {
 			b.WriteByte('&')
 		}
-		layerGoString(v.Elem().Interface(), b)
+		if e := v.Elem(); e.CanInterface() {
+			layerGoString(e.Interface(), b)
+		} else {
+			layerGoString(e, b)
+		}
 	case reflect.Struct:
 		t := v.Type()
 		b.WriteString(t.String())
@@ -443,7 +452,9 @@ func layerGoString(i interface{}, b *bytes.Buffer) {
 				fmt.Fprintf(b, "%s:", t.Field(i).Name)
 				layerGoString(v.Field(i), b)
 			} else if v.Field(i).Kind() == reflect.Ptr {
-				b.WriteByte('&')
+				if !v.Field(i).IsNil() {
+					b.WriteByte('&')
+				}
 				layerGoString(v.Field(i), b)
 			} else {
 				fmt.Fprintf(b, "%s:%#v", t.Field(i).Name, v.Field(i))
